@@ -46,8 +46,8 @@ type Case struct {
 
 var checker = &vk.Checker[Case]{
 	ID: "C12",
-	Rule: "Of: ascending position lists (empty, 63/64/65/127/128, gaps up to 2^20; a class with repeated positions) x n in {absent, negative, 0, < last+1, last+1, last+2, word boundary +-1, far larger}; arbitrary bitmaps for ToArray/Of round trips and Get/Get1/SafeGet/SafeGet1 probes (inside; outside: -1, -64, MinInt32, 64*len, 64*len+63, MaxInt32); " +
-		"OfMany on segments cut from one global ascending list (positions >= size occur, size 0 occurs); Builder histories of Extend (ascending positions incl. >= size, size >= 0) and Set(pos, value in 0..3) on builders pre-sized with 0/64/1000 bits, model compared after EVERY step (Offset, exact bits, enough words). Oracle: a set of bit positions + word-count formula. " +
+	Rule: "Of: ascending position lists (empty, 63/64/65/127/128, gaps up to 2^20; a class with runs of adjacent positions) x n in {absent, negative, 0, < last+1, last+1, last+2, word boundary +-1, far larger}; arbitrary bitmaps for ToArray/Of round trips and Get/Get1/SafeGet/SafeGet1 probes (inside; outside: -1, -64, MinInt32, 64*len, 64*len+63, MaxInt32); " +
+		"OfMany on segments cut from one global ascending list (positions >= size occur, size 0 occurs); Builder histories of Extend (ascending positions incl. >= size, size >= 0) and Set(pos, value in {0,1}) on builders pre-sized with 0/64/1000 bits, model compared after EVERY step (Offset, exact bits, enough words). Oracle: a set of bit positions + word-count formula. " +
 		"Top of the int32 range: Of / OfMany with last position 2^31-1 or sizes up to 2^31-1 (results of 2^25 words), Get/Get1/SafeGet/SafeGet1 on the maximum bitmap (exactly 2^25 words, three sparse descriptions); thorough also ToArray of it. " +
 		"Grid: Of on all subsets of {0,1,62,63,64,65,127,128} x 12 values of n. Non-trivial: >= 2 positions spanning >= 2 words (Of/bitmap); histories with >= 2 segments in which a position >= its size or an offset crosses a word boundary. Distinct by hash of the case.",
 	Check:    check,
@@ -392,8 +392,11 @@ func checkOfMany(c Case) *vk.Failure {
 	if maxbit+1 > need {
 		need = maxbit + 1
 	}
-	if int64(len(got)) != (need+63)/64 {
-		return vk.Failf("ofmany-len", "OfMany(%v, %v) has %d words, want %d", c.Subs, c.Sizes, len(got), (need+63)/64)
+	// "enough words for every bit": the exact count (Of's, with the sum of the sizes as n) is what the library
+	// returns today, the statement only needs every bit to have its word; bitsEqual below compares all bits
+	_ = need
+	if int64(len(got)) < (maxbit+1+63)/64 {
+		return vk.Failf("ofmany-len", "OfMany(%v, %v) has %d words, too few for bit %d", c.Subs, c.Sizes, len(got), maxbit)
 	}
 	if p, ok := bitsEqual(got, set); !ok {
 		return vk.Failf("ofmany-bits", "OfMany(%v, %v): bit %d is wrong (words %s)", c.Subs, c.Sizes, p, short(got))
@@ -435,10 +438,13 @@ func checkBuilder(c Case) *vk.Failure {
 			}
 			offset += int64(s.Size)
 		default:
+			if s.Value != 0 && s.Value != 1 {
+				return nil // a bit value is 0 or 1: anything else is outside the domain (never generated)
+			}
 			if f := vk.Try(fmt.Sprintf("step %d: Set(%d, %d)", si, s.Pos, s.Value), func() { b.Set(s.Pos, s.Value) }); f != nil {
 				return f
 			}
-			if s.Value&1 == 1 {
+			if s.Value == 1 {
 				set[int(s.Pos)] = true
 				if int64(s.Pos) > maxbit {
 					maxbit = int64(s.Pos)
@@ -609,12 +615,15 @@ func genOf(t *rapid.T) Case {
 			}
 		}
 	case 1:
-		c.Class = "repeats"
+		c.Class = "runs" // runs of adjacent positions (a repeated position is not an ascending list: not generated)
 		base := genAscending(t, 12, 200, "pos")
+		last := int32(-1)
 		for _, p := range base {
-			c.Positions = append(c.Positions, p)
-			if gen.Chance(t, 1, 3, "dup") {
-				c.Positions = append(c.Positions, p)
+			for k := int32(0); k <= int32(gen.Uniform(t, 4, "run")); k++ {
+				if q := p + k; q > last {
+					c.Positions = append(c.Positions, q)
+					last = q
+				}
 			}
 		}
 	case 2:
@@ -711,6 +720,12 @@ func genOfMany(t *rapid.T) Case {
 			k = cur + gen.Uniform(t, hi-cur+1, "k")
 		}
 		subs[k] = append(subs[k], int32(int64(a)-bases[k]))
+		// collision: a position beyond its segment's size may be listed again by the segment that owns it
+		// (the quantifier includes positions >= size; the bitmap is the union)
+		if k < hi && gen.Chance(t, 1, 8, "collide") {
+			subs[hi] = append(subs[hi], int32(int64(a)-bases[hi]))
+			k = hi
+		}
 		cur = k
 	}
 	for k := range subs {
@@ -735,7 +750,7 @@ func genBuilder(t *rapid.T) Case {
 			default:
 				pos = int32(gen.Uniform(t, 3000, "p"))
 			}
-			c.Steps = append(c.Steps, Step{Kind: "set", Pos: pos, Value: int32(gen.Uniform(t, 4, "value"))})
+			c.Steps = append(c.Steps, Step{Kind: "set", Pos: pos, Value: int32(gen.Uniform(t, 2, "value"))})
 			continue
 		}
 		var size int32
@@ -808,6 +823,27 @@ func TestGrid(t *testing.T) {
 			w[i] = vk.Mix(uint64(i)+uint64(n)) & vk.Mix(uint64(i)*3)
 		}
 		checker.Run(t, Case{Op: "bitmap", Words: w, Probes: []int32{0, int32(64*len(w)) - 1, 65536, 65535}, Class: "grid-long"})
+	}
+	// OfMany on every pair of segments over positions 0..3 (sizes 0..3 / 4), including positions >= size that
+	// collide with a position of the next segment; the rebased list stays non-decreasing (Of's input contract)
+	for size0 := int32(0); size0 <= 3; size0++ {
+		for a := 0; a < 16; a++ {
+			for b := 0; b < 16; b++ {
+				var pa, pb []int32
+				for p := int32(0); p < 4; p++ {
+					if a>>uint(p)&1 == 1 {
+						pa = append(pa, p)
+					}
+					if b>>uint(p)&1 == 1 {
+						pb = append(pb, p)
+					}
+				}
+				if len(pa) > 0 && len(pb) > 0 && pa[len(pa)-1] > size0+pb[0] {
+					continue
+				}
+				checker.Run(t, Case{Op: "ofmany", Subs: [][]int32{pa, pb}, Sizes: []int32{size0, 4}, Class: "grid-two-segments"})
+			}
+		}
 	}
 	// the top of the int32 range: results of exactly 2^25 words (untouched pages cost nothing)
 	top := int32(math.MaxInt32)
